@@ -55,7 +55,8 @@ def py_value(style: str, other: str, plain: str, k: int, dotted: bool) -> str:
     if style == "plain":
         return plain
     if style == "other":
-        return other + body + other
+        # a value that is itself a quoted Python literal would be un-quoted by the templater's infer_type
+        return (body + other) if other in "'\"" else (other + body + other)
     if style == "name":
         return "s" + "_" * k + ("ds" if dotted else "s")
     if style == "dot":
